@@ -308,4 +308,51 @@ theorem summary_err {source : Str} {toks : List Tok} {steps : Nat} {e : Err} (h 
     · simp only [Except.error.injEq] at h; exact h.symm
     · cases h
 
+/-! ## `Rules.keywords` -/
+
+theorem mem_dedup {x : Str} (acc xs : List Str) : x ∈ dedup acc xs ↔ x ∈ acc ∨ x ∈ xs := by
+  induction xs generalizing acc with
+  | nil => simp [dedup]
+  | cons y ys ih =>
+    simp only [dedup]
+    split
+    · rename_i hc
+      rw [ih]
+      simp only [List.mem_cons]
+      constructor
+      · rintro (h | h)
+        · exact Or.inl h
+        · exact Or.inr (Or.inr h)
+      · rintro (h | h | h)
+        · exact Or.inl h
+        · subst h; exact Or.inl (by simpa using hc)
+        · exact Or.inr h
+    · rw [ih]
+      simp only [List.mem_cons]
+      constructor
+      · rintro ((h | h) | h)
+        · exact Or.inr (Or.inl h)
+        · exact Or.inl h
+        · exact Or.inr (Or.inr h)
+      · rintro (h | h | h)
+        · exact Or.inl (Or.inr h)
+        · exact Or.inl (Or.inl h)
+        · exact Or.inr h
+
+/-- the keyword list contains the expression of EVERY terminal of EVERY rule — also of a rule that is one bare terminal -/
+theorem mem_keywords {R : Rules} {kv : Str × Pat} {e : Str} (hkv : kv ∈ R) (he : e ∈ collectKeyword kv.2) : e ∈ keywords R := by
+  unfold keywords
+  rw [mem_dedup]
+  right
+  simp only [List.mem_flatMap]
+  exact ⟨kv, hkv, he⟩
+
+/-- … and nothing else -/
+theorem keywords_sound {R : Rules} {e : Str} (h : e ∈ keywords R) : ∃ kv ∈ R, e ∈ collectKeyword kv.2 := by
+  unfold keywords at h
+  rw [mem_dedup] at h
+  rcases h with h | h
+  · simp at h
+  · simpa [List.mem_flatMap] using h
+
 end Tranp.Engine
